@@ -198,6 +198,64 @@ def eof_vs_full(res, prog, c):
                         res.violation('C10.9', 'C10.9|eof-vs-full|%s' % ('async' if 'async' in path else 'sync'), f, s_.get('line'), 'after a zero-length read the loop enters discard-until-newline recovery without testing that the buffer is full: at end of input an unterminated last line is dropped (Ok) or reported (Err) depending on how far earlier lines grew the buffer')
 
 
+def capacity_ladder(res, prog, c):
+    """C10.10: "every line shorter than 80 KiB" is parsed.  The window shifts only once more than half of it is consumed,
+    so a line is guaranteed to fit only when it is no longer than half the largest capacity the buffer can reach.  That
+    capacity follows from three constants read from the MIR of both loops: the initial capacity, the growth step
+    `capacity().saturating_mul(K)` handed to grow(), and the refusal test `new_cap > MAX`.  The ladder INITIAL * K^i is
+    folded (integer arithmetic on compile-time constants; nothing is run) up to the last rung the test admits; that
+    rung must be at least 2 * 80 KiB."""
+    LINE = 80 * 1024
+    res.rule('C10.10', 0, floor=2, note='largest capacity the growth ladder reaches is at least twice the 80 KiB line bound of the statement')
+    cap = prog.const_int('breakpad_symbols::sym_file::MAX_BUFFER_CAPACITY', 'breakpad_symbols')
+    init = prog.const_int('breakpad_symbols::sym_file::INITIAL_BUFFER_CAPACITY', 'breakpad_symbols')
+    if cap is None or init is None or init <= 0:
+        res.error('C10.10', 'MAX_BUFFER_CAPACITY / INITIAL_BUFFER_CAPACITY not found as positive integer statics')
+        return
+    for path in (PARSE, PARSE_ASYNC):
+        f = c.fn(path)
+        if f is None:
+            res.error('C10.10', '%s not found' % path)
+            continue
+        which = 'async' if 'async' in path else 'sync'
+        creates = [t for b, t in f.calls() if (f.callee(t) or '').endswith('circular::Buffer::with_capacity')]
+        grows = [t for b, t in f.calls() if (f.callee(t) or '') == 'circular::Buffer::grow']
+        if len(creates) != 1 or len(grows) != 1:
+            res.error('C10.10', '%s: expected one Buffer::with_capacity and one Buffer::grow, found %d and %d' % (which, len(creates), len(grows)))
+            continue
+        start = panics.resolve_items(prog, 'breakpad_symbols', f.expand(f.operand_tree(creates[0]['args'][0])))
+        step = f.expand(f.operand_tree(grows[0]['args'][1]))
+        k = None
+        if step[0] == 'call' and re.search(r'(saturating_mul|checked_mul|wrapping_mul)$', step[1]) and len(step) == 4 and 'Buffer::capacity' in show(step[2]) and step[3][0] == 'int':
+            k = step[3][1]
+        elif step[0] == 'bin' and step[1] == 'Mul' and 'Buffer::capacity' in show(step[2]) and step[3][0] == 'int':
+            k = step[3][1]
+        # the refusal test on the same term
+        test = None
+        for b in sorted(f.reach):
+            t = f.blocks[b]['t']
+            if t['k'] != 'switch':
+                continue
+            cond = panics.resolve_items(prog, 'breakpad_symbols', f.expand(f.operand_tree(t['x'])))
+            if cond[0] == 'bin' and cond[1] in ('Gt', 'Ge') and cond[3] == ('int', cap) and cond[2] == step:
+                test = cond[1]
+            elif cond[0] == 'bin' and cond[1] in ('Lt', 'Le') and cond[2] == ('int', cap) and cond[3] == step:
+                test = {'Lt': 'Gt', 'Le': 'Ge'}[cond[1]]
+        res.rule('C10.10', 1)
+        if start[0] != 'int' or k is None or k < 2 or test is None:
+            res.violation('C10.10', 'C10.10|shape|' + which, f, grows[0].get('line'), 'the growth ladder is not of the form with_capacity(const) / grow(capacity() * K) under `capacity() * K > MAX`: start %s, step %s, test %s' % (show(start), show(step)[:120], test))
+            continue
+        rung = start[1]
+        ladder = [rung]
+        while (rung * k <= cap) if test == 'Gt' else (rung * k < cap):
+            rung *= k
+            ladder.append(rung)
+        res.sample({'rule': 'C10.10', 'fn': which, 'ladder_KiB': [x / 1024 for x in ladder], 'factor': k, 'cap': cap})
+        if rung < 2 * LINE:
+            res.violation('C10.10', 'C10.10|ladder|' + which, f, grows[0].get('line'), 'the buffer grows %s and stops at %d bytes because the next rung %d passes MAX_BUFFER_CAPACITY = %d; a line is only guaranteed to fit in half the window, so lines between %d and %d bytes (shorter than 80 KiB) can be discarded depending on where they fall in the buffer' % (
+                ' -> '.join('%gK' % (x / 1024) for x in ladder), rung, rung * k, cap, rung // 2, LINE))
+
+
 def run(tier, t0):
     res = harness.Result(PID)
     prog = program()
@@ -214,6 +272,7 @@ def run(tier, t0):
     parseloop.check(res, prog, None, 'C10.5')
     tokenisers(res, prog, c)
     eof_vs_full(res, prog, c)
+    capacity_ladder(res, prog, c)
     # C10.7 a record parser never looks past the end of its own line: what it consumes must not depend on what the
     # window happens to hold after the line.  (a) my_eol is exactly `\r* \n`, once; (b) the parser module uses no nom
     # combinator that repeats a sub-parser an input-dependent number of times other than separated_list1 (which runs
